@@ -34,6 +34,9 @@ struct MSheet {
     filter: Option<Rect>,
     heights: BTreeMap<u32, u64>,
     widths: BTreeMap<u32, u64>,
+    /// font size (style tag) carried by a row / column setting
+    row_styles: BTreeMap<u32, u32>,
+    col_styles: BTreeMap<u32, u32>,
 }
 fn ins(x: u32, p: u32, n: u32) -> u32 {
     if x >= p {
@@ -76,8 +79,10 @@ impl MSheet {
         }
         if is_row {
             self.heights = self.heights.iter().map(|(&r, &h)| (ins(r, p, n), h)).collect();
+            self.row_styles = self.row_styles.iter().map(|(&r, &h)| (ins(r, p, n), h)).collect();
         } else {
             self.widths = self.widths.iter().map(|(&c, &w)| (ins(c, p, n), w)).collect();
+            self.col_styles = self.col_styles.iter().map(|(&c, &w)| (ins(c, p, n), w)).collect();
         }
     }
     fn remove(&mut self, is_row: bool, p: u32, n: u32) {
@@ -102,8 +107,10 @@ impl MSheet {
         self.comments = self.comments.iter().filter_map(|(c, r, t)| f(*c, *r).map(|(c, r)| (c, r, t.clone()))).collect();
         if is_row {
             self.heights = self.heights.iter().filter_map(|(&r, &h)| rem(r, p, n).map(|r| (r, h))).collect();
+            self.row_styles = self.row_styles.iter().filter_map(|(&r, &h)| rem(r, p, n).map(|r| (r, h))).collect();
         } else {
             self.widths = self.widths.iter().filter_map(|(&c, &w)| rem(c, p, n).map(|c| (c, w))).collect();
+            self.col_styles = self.col_styles.iter().filter_map(|(&c, &w)| rem(c, p, n).map(|c| (c, w))).collect();
         }
     }
     fn mv(&mut self, rc: &Rect, dr: i32, dc: i32, is_move: bool) {
@@ -137,6 +144,8 @@ impl MSheet {
         o.push(format!("COMMENTS {:?}", m));
         o.push(format!("HEIGHTS {:?}", self.heights));
         o.push(format!("WIDTHS {:?}", self.widths));
+        o.push(format!("ROWSTYLES {:?}", self.row_styles));
+        o.push(format!("COLSTYLES {:?}", self.col_styles));
         o
     }
 }
@@ -183,6 +192,11 @@ fn lib_dump(ws: &Worksheet) -> Vec<String> {
         }
     }
     o.push(format!("WIDTHS {:?}", w));
+    let tag = |st: &Style| st.get_font().map(|f| *f.get_size() as u32).filter(|s| *s >= 20);
+    let rs: BTreeMap<u32, u32> = ws.get_row_dimensions().iter().filter_map(|r| tag(r.get_style()).map(|t| (*r.get_row_num(), t))).collect();
+    o.push(format!("ROWSTYLES {:?}", rs));
+    let cs: BTreeMap<u32, u32> = ws.get_column_dimensions().iter().filter_map(|c| tag(c.get_style()).map(|t| (*c.get_col_num(), t))).collect();
+    o.push(format!("COLSTYLES {:?}", cs));
     o
 }
 
@@ -282,6 +296,12 @@ pub fn run(args: &Args) {
                     let h = (30 + uid % 50) as u64;
                     ws.get_row_dimension_mut(&r).set_height(h as f64);
                     model[si].heights.insert(r, h);
+                    if rng.chance(1, 2) {
+                        // the row setting also carries formatting
+                        let t = 100 + uid % 40;
+                        ws.get_row_dimension_mut(&r).get_style_mut().get_font_mut().set_size(t as f64);
+                        model[si].row_styles.insert(r, t);
+                    }
                 }
                 for _ in 0..rng.range(0, 3) {
                     let c = ox + rng.range(1, W);
@@ -289,6 +309,11 @@ pub fn run(args: &Args) {
                     let w = (20 + uid % 50) as u64;
                     ws.get_column_dimension_by_number_mut(&c).set_width(w as f64);
                     model[si].widths.insert(c, w);
+                    if rng.chance(1, 2) {
+                        let t = 150 + uid % 40;
+                        ws.get_column_dimension_by_number_mut(&c).get_style_mut().get_font_mut().set_size(t as f64);
+                        model[si].col_styles.insert(c, t);
+                    }
                 }
             }
         });
@@ -377,7 +402,9 @@ pub fn run(args: &Args) {
                     let v2 = v.clone();
                     apply_model = Box::new(move |m: &mut Vec<MSheet>| {
                         let keep = m[si].cells.get(&(c, r)).cloned();
-                        m[si].cells.insert((c, r), CellRec { val: v2.clone(), formula: String::new(), link: keep.as_ref().and_then(|x| x.link.clone()), size: keep.and_then(|x| x.size) });
+                        // a cell that get_cell_mut creates takes the formatting of its row / column setting, as in Excel: size 0 = not compared
+                        let fresh = keep.is_none() && (m[si].row_styles.contains_key(&r) || m[si].col_styles.contains_key(&c));
+                        m[si].cells.insert((c, r), CellRec { val: v2.clone(), formula: String::new(), link: keep.as_ref().and_then(|x| x.link.clone()), size: if fresh { Some(0) } else { keep.and_then(|x| x.size) } });
                     });
                     guard(|| {
                         book.get_sheet_mut(&si).unwrap().get_cell_mut((c, r)).set_value_string(v);
@@ -413,6 +440,17 @@ pub fn run(args: &Args) {
                     }
                 };
                 let m = model[sj].dump();
+                let mut l = l;
+                for ((c, r), v) in model[sj].cells.iter().filter(|(_, v)| v.size == Some(0)) {
+                    let prefix = format!("CELL {}{} ", string_from_column_index(c), r);
+                    let _ = v;
+                    for line in l.iter_mut().filter(|x| x.starts_with(&prefix)) {
+                        if let Some(i) = line.rfind(" size=") {
+                            line.truncate(i);
+                            line.push_str(" size=Some(0)");
+                        }
+                    }
+                }
                 if l != m {
                     let mut diffs = vec![];
                     for x in &m {
